@@ -1,11 +1,165 @@
-//! C03 — not built yet.
+//! C03 — range streams over every combination of bounds.
 use crate::common::*;
+use crate::core::*;
+use fst::raw::Fst;
+use fst::{IntoStreamer, Streamer};
+
 pub struct P;
-impl Prop for P {
-    fn generate(&self, _tier: Tier, _rng: &mut Rng, _stats: &mut Stats) -> Vec<String> {
-        vec![]
+
+/// bound keys for a key set: every key, every prefix, key +/- one byte, absent at every depth, empty
+pub fn bound_universe(ks: &[Vec<u8>], rng: &mut Rng, cap: usize) -> Vec<Vec<u8>> {
+    let mut bs: Vec<Vec<u8>> = vec![vec![]];
+    for k in ks {
+        bs.push(k.clone());
+        for i in 0..k.len() {
+            bs.push(k[..i].to_vec());
+            let mut d = k[..=i].to_vec();
+            d[i] = d[i].wrapping_add(1);
+            bs.push(d.clone());
+            d[i] = d[i].wrapping_sub(2);
+            bs.push(d);
+        }
+        let mut e = k.clone();
+        e.push(0);
+        bs.push(e.clone());
+        *e.last_mut().unwrap() = 0xFF;
+        bs.push(e);
     }
-    fn execute(&self, _case: &str) -> String {
-        String::new()
+    let mut bs = sort_dedup(bs);
+    while bs.len() > cap {
+        let i = rng.below(bs.len() as u64) as usize;
+        bs.remove(i);
+    }
+    bs
+}
+
+pub fn fmt_calls(calls: &[(u8, Vec<u8>)]) -> String {
+    if calls.is_empty() {
+        return "none".into();
+    }
+    calls.iter().map(|(k, b)| format!("{}:{}", ["ge", "gt", "le", "lt"][*k as usize], hex(b))).collect::<Vec<_>>().join(" ")
+}
+pub fn parse_calls(s: &str) -> Vec<(u8, Vec<u8>)> {
+    if s == "none" || s.is_empty() {
+        return vec![];
+    }
+    s.split(' ')
+        .map(|t| {
+            let mut p = t.split(':');
+            let k = match p.next().unwrap() { "ge" => 0, "gt" => 1, "le" => 2, _ => 3 };
+            (k, unhex(p.next().unwrap()))
+        })
+        .collect()
+}
+
+/// all (lower kind, lower key, upper kind, upper key) combinations over a bound universe
+pub fn all_ranges(bs: &[Vec<u8>]) -> Vec<Vec<(u8, Vec<u8>)>> {
+    let mut out = vec![vec![]];
+    let mut lows: Vec<Option<(u8, Vec<u8>)>> = vec![None];
+    let mut highs: Vec<Option<(u8, Vec<u8>)>> = vec![None];
+    for b in bs {
+        lows.push(Some((0, b.clone())));
+        lows.push(Some((1, b.clone())));
+        highs.push(Some((2, b.clone())));
+        highs.push(Some((3, b.clone())));
+    }
+    for l in &lows {
+        for h in &highs {
+            let mut c = vec![];
+            if let Some(l) = l { c.push(l.clone()); }
+            if let Some(h) = h { c.push(h.clone()); }
+            if !c.is_empty() { out.push(c); }
+        }
+    }
+    out
+}
+
+pub fn gen_range_cases(kind: &str, mid: &str, tier: Tier, rng: &mut Rng, stats: &mut Stats, cases: &mut Vec<String>) {
+    // exhaustive small scope: all bound combinations over the full bound universe
+    let u = universe(&[b'a', b'b'], 2);
+    let subs = subsets(&u);
+    for (si, ks) in subs.iter().enumerate() {
+        if tier == Tier::Quick && si % 4 != (rng.below(4) as usize) && ks.len() > 2 {
+            continue;
+        }
+        let vals = value_pattern(1 + (si % 2) * 3, ks.len(), rng);
+        let ops = map_ops(&with_values(ks, &vals));
+        let mut bs = bound_universe(&u, rng, 64);
+        bs.push(vec![b'c']);
+        let rs = all_ranges(&bs);
+        stats.add("ranges_small_scope", rs.len() as u64);
+        for chunk in rs.chunks(300) {
+            cases.push(format!("{} {} ;{} {}", kind, fmt_ops(&ops), mid, chunk.iter().map(|c| fmt_calls(c)).collect::<Vec<_>>().join("/")));
+        }
+        stats.bump("small_scope_keysets");
+    }
+    // deeper random key sets: sampled combinations + double settings
+    let nrand = match tier { Tier::Quick => 120, Tier::Thorough => 2500, Tier::Wide => 500 };
+    for i in 0..nrand {
+        let ks = if i % 5 == 0 { boundary_keysets(rng, tier).swap_remove(rng.below(40) as usize).1 } else { random_keyset(rng, 30, 7) };
+        if ks.len() > 300 { continue; }
+        let p = rng.below(NPATTERNS as u64) as usize;
+        let vals = value_pattern(p, ks.len(), rng);
+        let ops = map_ops(&with_values(&ks, &vals));
+        let bs = bound_universe(&ks, rng, 40);
+        let mut rs = vec![];
+        for _ in 0..60 {
+            let mut c = vec![];
+            let n = rng.range(0, 4);
+            for _ in 0..n {
+                c.push((rng.below(4) as u8, rng.pick(&bs).clone()));
+            }
+            rs.push(c);
+        }
+        stats.add("ranges_random", rs.len() as u64);
+        cases.push(format!("{} {} ;{} {}", kind, fmt_ops(&ops), mid, rs.iter().map(|c| fmt_calls(c)).collect::<Vec<_>>().join("/")));
+        stats.bump("random_keysets");
+    }
+}
+
+impl Prop for P {
+    fn generate(&self, tier: Tier, rng: &mut Rng, stats: &mut Stats) -> Vec<String> {
+        let mut cases = vec![];
+        gen_range_cases("range", "", tier, rng, stats, &mut cases);
+        cases
+    }
+    fn nontrivial(&self, case: &str) -> bool {
+        case.contains(',') && case.contains('/')
+    }
+    fn execute(&self, case: &str) -> String {
+        let rest = &case["range ".len()..];
+        let mut it = rest.split(';');
+        let ops = parse_ops(it.next().unwrap().trim());
+        let ranges: Vec<Vec<(u8, Vec<u8>)>> = it.next().unwrap().trim().split('/').map(|r| parse_calls(r.trim())).collect();
+        let out = exec_build("extend", "raw_loop", 0, 10_000, 2, &ops);
+        let bytes = out.bytes.unwrap();
+        let f = Fst::new(bytes.clone()).unwrap();
+        let map = fst::Map::new(bytes.clone()).unwrap();
+        let mut x = String::from("ok");
+        let mut res = vec![];
+        for calls in &ranges {
+            let mut rb = f.range();
+            let mut mb = map.range();
+            for (k, b) in calls {
+                rb = match k { 0 => rb.ge(b), 1 => rb.gt(b), 2 => rb.le(b), _ => rb.lt(b) };
+                mb = match k { 0 => mb.ge(b), 1 => mb.gt(b), 2 => mb.le(b), _ => mb.lt(b) };
+            }
+            let mut st = rb.into_stream();
+            let mut got = vec![];
+            while let Some((k, v)) = st.next() {
+                got.push((k.to_vec(), v.value()));
+            }
+            // "and then ends": further calls keep returning None
+            if st.next().is_some() || st.next().is_some() {
+                x = format!("stream yields again after None for {}", fmt_calls(calls));
+            }
+            let viamap = mb.into_stream().into_byte_vec();
+            if viamap != got {
+                x = format!("Map::range disagrees with raw range for {}", fmt_calls(calls));
+            }
+            res.push(fmt_kvs(&got));
+        }
+        let s = res.join("/");
+        format!("S:{}\tM:{}\tX:{}", s, s, x)
     }
 }
